@@ -254,6 +254,7 @@ structure POK (l : Local) : Prop where
   cs : l.ps.cmdsubst = false
   hist : histOK l.lastReadToken = true
   dp : l.ps.dblparen = false
+  ps : PSOK l
 
 theorem head_append_ne {α : Type} {xs ys : List α} {x : α} (h : xs.head? = some x) :
     (xs ++ ys).head? = some x := by
@@ -333,7 +334,7 @@ theorem run_words {np : NestedParse} {L : Str} {adn : Bool} {tail : Str}
       simp [spellI]
     refine ih (ns ++ [Node.word (a, i) w []]) (i + g.length) (i + g.length + w'.length) w'
       (afterTok l _) f nl _ _ hrest hit.2
-      ⟨hl.wok.afterTok _, hl.cs, by show histOK l.currentToken = true; exact hcurh, hl.dp⟩ rfl hLn
+      ⟨hl.wok.afterTok _, hl.cs, by show histOK l.currentToken = true; exact hcurh, hl.dp, ⟨hl.ps.cp, hl.ps.rl, hl.ps.ca⟩⟩ rfl hLn
       (by simp at hf; omega) (head_append_ne hh) ?_
     intro r l' T' hr
     refine h r l' T' ?_
@@ -341,7 +342,7 @@ theorem run_words {np : NestedParse} {L : Str} {adn : Bool} {tail : Str}
 
 theorem POK.afterTok {l : Local} (h : POK l) (hc : histOK l.currentToken = true) (t : Token) :
     POK (afterTok l t) :=
-  ⟨h.wok.afterTok t, h.cs, hc, h.dp⟩
+  ⟨h.wok.afterTok t, h.cs, hc, h.dp, ⟨h.ps.cp, h.ps.rl, h.ps.ca⟩⟩
 
 /-- **the whole line**: from the initial configuration of the engine, on blanks, a first plain
     word that is no reserved word, further gap-separated plain words, trailing blanks, newline -/
